@@ -452,7 +452,8 @@ Proof.
   cbn [step]. destruct (find_inst (c_insts c) t); [|discriminate].
   destruct (negb _); [discriminate|]. destruct (existsb _ _); [discriminate|].
   destruct (negb (subset_keys _ _)); [discriminate|].
-  destruct (negb (Bool.eqb held (hold_expected s t))) eqn:E; [discriminate|]. intros _.
+  destruct (negb (Bool.eqb held (hold_expected s t))) eqn:E; [discriminate|].
+  destruct (Z.ltb (fst t) (c_start c)); [discriminate|]. intros _.
   apply negb_false_iff in E. now apply eqb_prop in E.
 Qed.
 
@@ -603,4 +604,16 @@ Proof.
   cbn [step]. destruct (stop_task s) as [t|]; [|discriminate].
   destruct (out_done s t o_succeeded) eqn:E; [|discriminate]. intros [= <-].
   exists t. unfold out_done in E. apply mem_key_In in E. auto.
+Qed.
+
+(* ------------------------------------------------------------------ *)
+(* C46: warm start                                                      *)
+(* ------------------------------------------------------------------ *)
+Theorem nothing_spawned_before_start_point c s t fl sat0 held s' :
+  step c s (ESpawn t fl sat0 held) = Ok s' -> c_start c <= fst t.
+Proof.
+  cbn [step]. destruct (find_inst (c_insts c) t); [|discriminate].
+  destruct (negb _); [discriminate|]. destruct (existsb _ _); [discriminate|].
+  destruct (negb (subset_keys _ _)); [discriminate|]. destruct (negb (Bool.eqb _ _)); [discriminate|].
+  destruct (Z.ltb (fst t) (c_start c)) eqn:E; [discriminate|]. intros _. now apply Z.ltb_ge in E.
 Qed.
